@@ -3,17 +3,22 @@
 # (/verif/mutants/<prop>-*.diff) to /repo in turn, runs the property's quick check, undoes the change,
 # and prints one line per change: caught (exit 1 + VIOLATION) or MISSED. Results: /verif/work/campaign.txt
 set -u
-cd /verif
+REPO="${REPO:-/repo}"
+cd "$(dirname "${BASH_SOURCE[0]}")"
+VERIF="$(pwd)"
+if [ "$REPO" != "/repo" ]; then
+  # running from a snapshot against a private copy of the repository: point the simulator at it
+  sed -i "s#path = \"/repo\"#path = \"$REPO\"#" sim/Cargo.toml
+fi
 mkdir -p work
 OUT=work/campaign.txt; : > $OUT
 run_one() {
   local name="$1" patch="$2" prop="$3"; shift 3
-  cd /repo; git checkout HEAD -- . 2>/dev/null
-  if ! git apply "$patch" 2>/dev/null; then echo "$name $prop APPLY-FAILED" | tee -a /verif/$OUT; cd /verif; return; fi
-  cd /verif
+  git -C "$REPO" checkout HEAD -- . 2>/dev/null
+  if ! git -C "$REPO" apply "$VERIF/$patch" 2>/dev/null; then echo "$name $prop APPLY-FAILED" | tee -a $OUT; return; fi
   local log=work/campaign-$name.log
   ./check $prop quick "$@" > $log 2>&1; local rc=$?
-  git -C /repo checkout HEAD -- .
+  git -C "$REPO" checkout HEAD -- .
   local cls=$(grep -A1 "^VIOLATION" $log | grep -o "class=[^ ]*" | sort -u | tr '\n' ' ')
   if [ $rc -eq 1 ] && grep -q "^VIOLATION property=$prop" $log; then echo "$name $prop caught $cls" | tee -a $OUT
   elif [ $rc -eq 0 ]; then echo "$name $prop MISSED" | tee -a $OUT
